@@ -562,6 +562,29 @@ mut('c15-property-no-type', ['C15'], IF,
     [("                    '    <property name=\"%s\" type=\"%s\" access=\"%s\">' %\n                    (p.name, p.sig, p.access,))",
       "                    '    <property name=\"%s\" access=\"%s\">' %\n                    (p.name, p.access,))")], ['C15.D1'])
 
+# ---- C19 ------------------------------------------------------------------
+twin('c19-prefix-dead-int-branch', ['C19'], 'c4ba78c', ['C19.D4', 'C19.D2'], 'pre-fix twin')
+mut('c19-find-end-no-depth', ['C19'], M,
+    [("            if subc == b:\n                depth += 1\n            elif subc == e:", "            if subc == e:")], ['C19.D5'],
+    note='nested brackets split at the first closing bracket')
+mut('c19-struct-off-by-one', ['C19'], M,
+    [("            x = find_end(i + 1, '(', ')')\n            yield compoundSig[i:x + 1]\n            i = x\n", "            x = find_end(i + 1, '(', ')')\n            yield compoundSig[i:x + 1]\n            i = x + 1\n")], ['C19.D5'])
+mut('c19-dict-uses-paren-matcher', ['C19'], M,
+    [("            x = find_end(i + 1, '{', '}')", "            x = find_end(i + 1, '(', '}')")], ['C19.D3'])
+mut('c19-sig-list-elem-not-wrapped', ['C19'], M,
+    [("            return 'a' + sigFromPy(pobj[0])", "            return sigFromPy(pobj[0])")], [], kind='break',
+    note='still one complete type by shape (T): not detectable by the shape rule - expected MISSED unless the list shape is checked')
+mut('c19-dict-sig-missing-brace', ['C19'], M,
+    [("            return 'a{' + sigFromPy(k) + 'v}'", "            return 'a{' + sigFromPy(k) + 'v'")], ['C19.D2'])
+mut('c19-variantmap-swap', ['C19'], M,
+    [("    'n': Int16,\n    'q': UInt16,", "    'n': UInt16,\n    'q': Int16,")], ['C19.D1'])
+mut('c19-wrapper-sig', ['C19'], M,
+    [("    dbusSignature = 'u'\n", "    dbusSignature = 'i'\n")], ['C19.D1'])
+mut('c19-nargs-by-length', ['C19'], IF,
+    [("            m.nargs = len([a for a in marshal.genCompleteTypes(m.sigIn)])", "            m.nargs = len(m.sigIn)")], ['C19.D3'])
+mut('ok-c19-int-range-constants', ['C19'], M,
+    [("        if -2**31 <= pobj < 2**31:\n            return 'i'\n        return 'x'", "        if -2147483648 <= pobj <= 2147483647:\n            return 'i'\n        else:\n            return 'x'")], kind='benign')
+
 # benign variants --------------------------------------------------------------
 mut('ok-int16-condexpr', ['C01', 'C02'], M,
     [("return 2, [struct.pack(lendian and '<h' or '>h', var)]",
